@@ -35,9 +35,9 @@ pub fn dump_value(v: &Value) -> Result<J, String> {
         }
         JsonType::Number => {
             if !v.is_number() { return Err("number !is_number".into()); }
-            if let Some(n) = v.as_number() {
+            let numeric = |v: &Value| -> Result<J, String> {
+                let n = v.as_number().ok_or("number without as_number")?;
                 let (u, i, f) = (v.is_u64(), v.is_i64(), v.is_f64());
-                // is_i64 is also true for small u64 values by documentation; classification key is the Number's own
                 if n.is_u64() {
                     let x = v.as_u64().ok_or("is_u64 without as_u64")?;
                     if !u || f || i != (x <= i64::MAX as u64) { return Err(format!("u64 flags {u} {i} {f}")); }
@@ -51,10 +51,14 @@ pub fn dump_value(v: &Value) -> Result<J, String> {
                     if !f || u || i { return Err(format!("f64 flags {u} {i} {f}")); }
                     Ok(f64_j(x))
                 }
-            } else if let Some(r) = v.as_raw_number() {
-                Ok(json!({"t":"num","k":"raw","raw":bytes_j(r.as_str().as_bytes())}))
+            };
+            if let Some(r) = v.as_raw_number() {
+                // raw-number node: the literal text, plus the numeric view the accessors give (may be absent
+                // when the literal is not representable, e.g. 1e999)
+                let as_num = if v.as_number().is_some() { numeric(v)? } else { json!({"t":"none"}) };
+                Ok(json!({"t":"num","k":"raw","raw":bytes_j(r.as_str().as_bytes()),"as":as_num}))
             } else {
-                Err("number without as_number/as_raw_number".into())
+                numeric(v)
             }
         }
         JsonType::Array => {
